@@ -331,6 +331,9 @@ fn main() {
     logcap::set_scenario("c18h3: TLC vectors of Services.tla over HTTP/3 (concurrent; see the result file for the vector)");
     let threads: usize = arg_or("--threads", "6").parse().unwrap();
     let only = arg("--only");
+    // --qmux <file>: record the multiplexer's timer bookkeeping (hook QMux) for QuicTimersTrace.tla
+    let qmux = arg("--qmux");
+    if qmux.is_some() { trusttunnel::verif::start_recording(); }
     let loss_all = std::env::args().any(|a| a == "--loss");
     let no_loss = std::env::args().any(|a| a == "--no-loss");
     // quick tier: transfers above this many bytes are left to the thorough tier
@@ -506,6 +509,15 @@ fn main() {
     let panics = PANICS.lock().unwrap_or_else(|e| e.into_inner());
     if !panics.is_empty() {
         rep.violation_with("services-h3:panic", format!("{} panic(s) while serving HTTP/3 clients", panics.len()), || json!({"panics": panics.clone()}));
+    }
+    if let Some(f) = qmux {
+        use std::io::Write;
+        let mut w = std::io::BufWriter::new(std::fs::File::create(&f).expect("qmux file"));
+        let mut n = 0u64;
+        for l in trusttunnel::verif::stop_recording() {
+            if l.contains("\"ev\":\"QMux\"") { let _ = writeln!(w, "{}", l); n += 1; }
+        }
+        rep.count("qmux_observations", n);
     }
     rep.finish(&out_path);
 }
